@@ -1,5 +1,6 @@
 import LentilVerif.Model.PlaneMeta
 import LentilVerif.Lemmas.PlaneAlg
+import LentilVerif.Lemmas.ChainExtents
 import LentilVerif.Props.C06
 import LentilVerif.Lemmas.PlaneComplex
 /-! # C07 — wavefront views agree with each other and planes act as pointwise phasors
@@ -403,6 +404,26 @@ theorem default_plane_identity (ph : R → K) (o : R) (hph : ph o = 1) (f : Fld 
         have e2 : c - (arrayExtent 1 1 f.o0 f.o1).cmin = 0 := by rw [arrayExtent_eq]; simp only; omega
         rw [e1, e2]
       · rfl
+
+/-- the default plane on a whole list of array fields: the list comes back unchanged (literally: same shapes, offsets, samples) -/
+theorem default_plane_identity_list (ph : R → K) (o : R) (hph : ph o = 1) (data : List (Fld K))
+    (hd : ∀ f ∈ data, f.size1 = false ∧ (0 < f.arr.s0 ∧ 0 < f.arr.s1)) :
+    planeMultiply ph ⟨.scalar 1, .scalar o, .scalar true⟩ data = data :=
+  planeMultiply_default_id ph o hph data (fun f hf => ⟨(hd f hf).1, (pos_iff_valid f).mp (hd f hf).2⟩)
+
+/-- **the fresh wavefront through an all-scalar plane** (scalar amplitude, scalar OPD, 0-d mask — e.g. `Plane(amplitude=2)`): the
+single one-element field at the origin is multiplied by `amplitude · mask · exp(2πi·opd/λ)` and stays where it is -/
+theorem fresh_times_scalar_plane (ph : R → K) (a : K) (o : R) (on : Bool) (w0 : Fld K) (h0 : w0.size1 = true)
+    (hoff : w0.o0 = 0 ∧ w0.o1 = 0) :
+    planeMultiply ph ⟨.scalar a, .scalar o, .scalar on⟩ [w0]
+      = [{ arr := { s0 := 1, s1 := 1, get := fun _ _ => w0.arr.get 0 0 * (maskMul on a * ph o) }, o0 := w0.o0, o1 := w0.o1 }] := by
+  have hq1 : (scalarPhasor ph (.scalar a) (.scalar o) on).size1 = true := rfl
+  have hm := Fld.mul_scalar_scalar w0 (scalarPhasor ph (.scalar a) (.scalar o) on) (by rw [h0, hq1]; rfl)
+  have hoff' : w0.o0 = (scalarPhasor ph (.scalar a) (.scalar o) on).o0 ∧ w0.o1 = (scalarPhasor ph (.scalar a) (.scalar o) on).o1 := hoff
+  rw [if_pos hoff'] at hm
+  simp only [planeMultiply, planePhasors, List.flatMap_cons, List.flatMap_nil, List.append_nil, List.filterMap_cons,
+    List.filterMap_nil, hm]
+  rfl
 
 end identity
 
